@@ -514,7 +514,15 @@ impl Env {
             push_value_msat: 0,
             funding_outpoint: OutPoint { txid: Txid::from_byte_array(rng.bytes::<32>()), vout: rng.below(3) as u32 },
             holder_selected_contest_delay: hd,
-            holder_shutdown_script: None,
+            // a third of the channels fix an upfront shutdown script at setup: an allowlisted, non-wallet
+            // destination (setup refuses anything else).  It is a sweep destination like any other: allowed while
+            // it is on the allowlist, not allowed once the operator has removed it
+            holder_shutdown_script: if !self.allow_scripts.is_empty() && rng.chance(1, 3) {
+                r.count("world.channel_with_upfront_shutdown_script");
+                Some(rng.pick(&self.allow_scripts).1.clone())
+            } else {
+                None
+            },
             counterparty_points: ChannelPublicKeys {
                 funding_pubkey: rand_pubkey(rng, secp),
                 revocation_basepoint: RevocationBasepoint(rand_pubkey(rng, secp)),
@@ -593,7 +601,15 @@ impl Env {
             let node = self.world.node.clone();
             match rng.below(3) {
                 0 if !self.allow_scripts.is_empty() => {
-                    let i = rng.usize(self.allow_scripts.len());
+                    let mut i = rng.usize(self.allow_scripts.len());
+                    // half of the time the entry that goes is the upfront shutdown script of a channel, if there is one
+                    let upfront: Vec<usize> = (0..self.allow_scripts.len())
+                        .filter(|j| self.chans.iter().any(|c| c.setup.holder_shutdown_script.as_ref() == Some(&self.allow_scripts[*j].1)))
+                        .collect();
+                    if !upfront.is_empty() && rng.bool() {
+                        i = *rng.pick(&upfront);
+                        r.count("world.allowlist_script_removed_was_upfront_shutdown_script");
+                    }
                     let (a, s) = self.allow_scripts.remove(i);
                     // half of the removals meet a store that is unavailable for one write; the request fails (or
                     // the daemon dies) and the node sends it again; afterwards the signer is restarted
@@ -1291,7 +1307,20 @@ fn sweep_case(env: &mut Env, rng: &mut Rng, r: &mut Report, cid: &CaseId) -> Opt
     let mut classes = vec![];
     for _ in 0..n_out {
         let g = good(rng);
-        let (s, cl) = gen_dest(env, rng, &supplied, g);
+        let (mut s, mut cl) = gen_dest(env, rng, &supplied, g);
+        // the channel's own upfront shutdown script as a sweep destination: fine while allowlisted, not afterwards
+        if let Some(up) = c.setup.holder_shutdown_script.as_ref() {
+            let listed = env.allow_scripts.iter().any(|(_, x)| x == up);
+            if g && listed && rng.chance(1, 6) {
+                s = up.clone();
+                cl = DestClass::AllowScript;
+                r.count("dest.upfront_shutdown_script.allowlisted");
+            } else if !g && !listed && env.removed_scripts.contains(up) && rng.bool() {
+                s = up.clone();
+                cl = DestClass::RemovedAllow;
+                r.count("dest.upfront_shutdown_script.removed_from_allowlist");
+            }
+        }
         outputs.push(TxOut { value: Amount::from_sat(rng.range(0, 4_000_000)), script_pubkey: s });
         classes.push(cl);
     }
@@ -2357,6 +2386,7 @@ fn main() {
     report.require("hB.only_one_structure_clause_bad.refused", 100);
     report.require("selfcheck.hand_built_htlc_tx_equals_ldk", 1000);
     report.require("selfcheck.htlc_template_matches_ldk_script", 500);
+    report.require("dest.upfront_shutdown_script.removed_from_allowlist", 20);
 
     finish(
         report,
